@@ -1,4 +1,445 @@
-(* C14 -- interpolated powertrain predictions stay faithful to the underlying model. *)
-From Coq Require Import ZArith QArith List Bool.
-From RC Require Import Base.Num Base.Res Model.Interp Proofs.Interp.
+(* C14 -- interpolated powertrain predictions stay faithful to the underlying model.
+
+   All statements are about the model of Model/Interp.v instantiated with exact rationals (QN); the same text, run with
+   binary64 (FN), is compared bit for bit with the Rust code by the correspondence streams of checks/c14.py.
+   They hold for EVERY strictly increasing grid with at least two points per axis and every table (no size bound).
+
+   Vocabulary (Proofs/Interp*.v):  nq g i = g[i];  lastq g = g[len-1];  incr g = strictly increasing;
+   inr g x = g[0] <= x <= g[len-1];  axis_cell g x i = "cell i contains x": i+1 < len, g[i] <= x <= g[i+1], g[i] < g[i+1];
+   fr g i x = (x - g[i]) / (g[i+1] - g[i]);  ler a b d = a (1 - d) + b d;
+   P1 / P2 / P3 / ndP = the (multi)linear polynomial of one cell;  t2 f i j = f[i][j];  validK m / wf n gs v = what the
+   constructors validate plus ">= 2 points per axis" (theorems c14_*_new_valid).
+
+   This file contains statements only: every theorem is closed by [exact] of a lemma of Proofs/Interp*.v. *)
+From Coq Require Import ZArith QArith Qminmax Qabs List Bool Arith String.
+From RC Require Import Base.Num Base.Res Model.Interp Model.InterpRun
+  Proofs.Interp Proofs.InterpGrid Proofs.InterpSG Proofs.InterpND Proofs.InterpAgree Proofs.InterpNew
+  Proofs.InterpSpec Proofs.InterpTop.
 Import ListNotations.
+Import Interp InterpP InterpG InterpS InterpN InterpA InterpW InterpC InterpT InterpRun.
+Open Scope Q_scope.
+
+(* ================================================================== 1. cell index (utils::find_nearest_index) *)
+
+(* the binary search never runs out of the fuel find_nearest_index gives it (the Rust loop terminates) and returns the
+   first index whose grid value is >= the target *)
+Theorem c14_search_fuel : forall (g : list Q) (t : Q),
+  (1 <= List.length g)%nat -> t <= lastq g ->
+  exists r, bs_loop (N:=QN) (List.length g) g t 0 (List.length g - 1) = Ok r /\
+            (r <= List.length g - 1)%nat /\ (r = 0%nat \/ nq g (r - 1) < t) /\ t <= nq g r.
+Proof. exact bs_loop_fuel. Qed.
+
+(* cell_index_spec: for an in-range coordinate the returned index i is a valid lower cell index:
+   i + 1 < len and grid[i] <= x <= grid[i+1]; on the upper boundary i = len - 2 (the special case of the code);
+   otherwise grid[i] < x, except at x = grid[0] *)
+Theorem c14_cell_index : forall (g : list Q) (x : Q),
+  incr g -> (2 <= List.length g)%nat -> nq g 0 <= x -> x <= lastq g ->
+  exists i, find_nearest_index (N:=QN) g x = Ok i /\ (S i < List.length g)%nat /\
+            nq g i <= x /\ x <= nq g (S i) /\
+            ((x == lastq g /\ i = (List.length g - 2)%nat) \/ nq g i < x \/ (i = 0%nat /\ x == nq g 0)).
+Proof. exact fni_spec. Qed.
+
+(* ================================================================== 2. the speed/grade model *)
+Section SpeedGrade.
+  (* the underlying prediction model (energy at unit distance for a speed and a grade in the model's units) and the
+     unit conversions of the query are arbitrary *)
+  Variable underlying : Q -> Q -> res Q.
+  Variable conv_speed conv_grade : Q -> Q.
+  Variables (s_lo s_hi : Q) (s_bins : nat) (g_lo g_hi : Q) (g_bins : nat) (m : @interp2 QN).
+  Hypothesis Hnew : sg_new (N:=QN) underlying s_lo s_hi s_bins g_lo g_hi g_bins = Ok m.
+  Hypothesis Hsb : (2 <= s_bins)%nat.
+  Hypothesis Hgb : (2 <= g_bins)%nat.
+
+  Notation predict := (sg_predict (N:=QN) conv_speed conv_grade m).
+  (* the converted query clamped to the grid bounds *)
+  Notation qs := (qs conv_speed m).
+  Notation qg := (qg conv_grade m).
+
+  (* grid_is_underlying: the axes are the linspace of the bounds, the table is the predictor at the grid points *)
+  Theorem c14_sg_grid_is_underlying :
+    linspace (N:=QN) s_lo s_hi s_bins = Ok (x2 m) /\ linspace (N:=QN) g_lo g_hi g_bins = Ok (y2 m) /\
+    List.length (x2 m) = s_bins /\ List.length (y2 m) = g_bins /\
+    nq (x2 m) 0 = s_lo /\ lastq (x2 m) == s_hi /\ nq (y2 m) 0 = g_lo /\ lastq (y2 m) == g_hi /\
+    s_lo < s_hi /\ g_lo < g_hi /\
+    (forall i, (i < s_bins)%nat ->
+       nq (x2 m) i == s_lo + inject_Z (Z.of_nat i) * ((s_hi - s_lo) / inject_Z (Z.of_nat (s_bins - 1)))) /\
+    (forall j, (j < g_bins)%nat ->
+       nq (y2 m) j == g_lo + inject_Z (Z.of_nat j) * ((g_hi - g_lo) / inject_Z (Z.of_nat (g_bins - 1)))) /\
+    (forall i j, (i < s_bins)%nat -> (j < g_bins)%nat ->
+       underlying (nq (x2 m) i) (nq (y2 m) j) = Ok (t2 (f2 m) i j)).
+  Proof. exact (tsg_grid_is_underlying underlying s_lo s_hi s_bins g_lo g_hi g_bins m Hnew Hsb Hgb). Qed.
+
+  (* interp2_convex for the model: for ANY speed and grade the prediction succeeds and lies between the smallest and the
+     largest underlying rate at the four grid points surrounding the (clamped) query *)
+  Theorem c14_sg_between_surrounding : forall speed grade,
+    exists i j v u00 u10 u01 u11,
+      predict speed grade = Ok v /\
+      axis_cell (x2 m) (qs speed) i /\ axis_cell (y2 m) (qg grade) j /\
+      underlying (nq (x2 m) i) (nq (y2 m) j) = Ok u00 /\
+      underlying (nq (x2 m) (S i)) (nq (y2 m) j) = Ok u10 /\
+      underlying (nq (x2 m) i) (nq (y2 m) (S j)) = Ok u01 /\
+      underlying (nq (x2 m) (S i)) (nq (y2 m) (S j)) = Ok u11 /\
+      min4 u00 u10 u01 u11 <= v /\ v <= max4 u00 u10 u01 u11.
+  Proof. exact (tsg_convex underlying conv_speed conv_grade s_lo s_hi s_bins g_lo g_hi g_bins m Hnew Hsb Hgb). Qed.
+
+  (* interp_on_grid: at a grid point the prediction is the underlying model's value *)
+  Theorem c14_sg_on_grid : forall speed grade k l, (k < s_bins)%nat -> (l < g_bins)%nat ->
+    conv_speed speed == nq (x2 m) k -> conv_grade grade == nq (y2 m) l ->
+    exists v u, predict speed grade = Ok v /\ underlying (nq (x2 m) k) (nq (y2 m) l) = Ok u /\ v == u.
+  Proof. exact (tsg_on_grid underlying conv_speed conv_grade s_lo s_hi s_bins g_lo g_hi g_bins m Hnew Hsb Hgb). Qed.
+
+  (* border_agreement: the prediction is the bilinear polynomial of EVERY cell whose closed rectangle contains the
+     (clamped) query; on a shared edge or corner all adjacent cells therefore give the same value.  With each cell
+     polynomial being Lipschitz inside its cell (c14_cell_lipschitz) this is the algebraic content of continuity. *)
+  Theorem c14_sg_border_agreement : forall speed grade,
+    exists v, predict speed grade = Ok v /\
+      forall i j, axis_cell (x2 m) (qs speed) i -> axis_cell (y2 m) (qg grade) j ->
+                  v == P2 m i j (qs speed) (qg grade).
+  Proof. exact (tsg_any_cell underlying conv_speed conv_grade s_lo s_hi s_bins g_lo g_hi g_bins m Hnew Hsb Hgb). Qed.
+
+  (* clamp_outside: never an error; predicting at x is interpolating at clamp x; clamping is idempotent; a coordinate
+     below / above the grid is replaced by the lower / upper grid bound, one inside is unchanged *)
+  Theorem c14_sg_clamp_outside : forall speed grade,
+    (exists v, predict speed grade = Ok v) /\
+    predict speed grade = interpolate2 (N:=QN) m [qs speed; qg grade] /\
+    sg_predict_conv (N:=QN) m (conv_speed speed) (conv_grade grade)
+      = sg_predict_conv (N:=QN) m (qs speed) (qg grade) /\
+    inr (x2 m) (qs speed) /\ inr (y2 m) (qg grade) /\
+    (conv_speed speed < s_lo -> qs speed = s_lo) /\
+    (lastq (x2 m) < conv_speed speed -> qs speed = lastq (x2 m)) /\
+    (inr (x2 m) (conv_speed speed) -> qs speed = conv_speed speed) /\
+    (conv_grade grade < g_lo -> qg grade = g_lo) /\
+    (lastq (y2 m) < conv_grade grade -> qg grade = lastq (y2 m)) /\
+    (inr (y2 m) (conv_grade grade) -> qg grade = conv_grade grade).
+  Proof. exact (tsg_clamp_outside underlying conv_speed conv_grade s_lo s_hi s_bins g_lo g_hi g_bins m Hnew Hsb Hgb). Qed.
+End SpeedGrade.
+
+(* `new` succeeds whenever the bounds are ordered, there are two bins per axis and the predictor answers *)
+Theorem c14_sg_new_total : forall underlying s_lo s_hi s_bins g_lo g_hi g_bins,
+  s_lo < s_hi -> g_lo < g_hi -> (2 <= s_bins)%nat -> (2 <= g_bins)%nat ->
+  (forall s g, exists v, underlying s g = Ok v) ->
+  exists m, sg_new (N:=QN) underlying s_lo s_hi s_bins g_lo g_hi g_bins = Ok m.
+Proof. exact sg_new_total. Qed.
+
+(* ================================================================== 3. Interp2D *)
+Theorem c14_interp2_new_valid : forall x y f m, interp2_new (N:=QN) x y f = Ok m ->
+  (2 <= List.length x)%nat -> (2 <= List.length y)%nat -> valid2 m /\ x2 m = x /\ y2 m = y /\ f2 m = f.
+Proof. exact new2_valid. Qed.
+
+(* interp2_convex *)
+Theorem c14_interp2_convex : forall m px py, valid2 m -> inr (x2 m) px -> inr (y2 m) py ->
+  exists i j v, interpolate2 (N:=QN) m [px; py] = Ok v /\ axis_cell (x2 m) px i /\ axis_cell (y2 m) py j /\
+    min4 (t2 (f2 m) i j) (t2 (f2 m) (S i) j) (t2 (f2 m) i (S j)) (t2 (f2 m) (S i) (S j)) <= v /\
+    v <= max4 (t2 (f2 m) i j) (t2 (f2 m) (S i) j) (t2 (f2 m) i (S j)) (t2 (f2 m) (S i) (S j)).
+Proof. exact t2_convex. Qed.
+
+Theorem c14_interp2_on_grid : forall m px py k l, valid2 m ->
+  (k < List.length (x2 m))%nat -> (l < List.length (y2 m))%nat -> px == nq (x2 m) k -> py == nq (y2 m) l ->
+  exists v, interpolate2 (N:=QN) m [px; py] = Ok v /\ v == t2 (f2 m) k l.
+Proof. exact t2_on_grid. Qed.
+
+Theorem c14_interp2_border_agreement : forall m px py, valid2 m -> inr (x2 m) px -> inr (y2 m) py ->
+  exists v, interpolate2 (N:=QN) m [px; py] = Ok v /\
+            forall i j, axis_cell (x2 m) px i -> axis_cell (y2 m) py j -> v == P2 m i j px py.
+Proof. exact t2_any_cell. Qed.
+
+(* left and right (lower and upper) cell polynomials coincide on their common grid line *)
+Theorem c14_border_agreement_x : forall m k j py, valid2 m -> (S (S k) < List.length (x2 m))%nat ->
+  axis_cell (y2 m) py j -> P2 m k j (nq (x2 m) (S k)) py == P2 m (S k) j (nq (x2 m) (S k)) py.
+Proof. exact t2_border_x. Qed.
+Theorem c14_border_agreement_y : forall m i l px, valid2 m -> (S (S l) < List.length (y2 m))%nat ->
+  axis_cell (x2 m) px i -> P2 m i l px (nq (y2 m) (S l)) == P2 m i (S l) px (nq (y2 m) (S l)).
+Proof. exact t2_border_y. Qed.
+
+(* interp2_lipschitz_in_cell: the change of a cell polynomial is the change of the fractions times blends of corner
+   differences (so at most the largest corner difference per unit of fraction) *)
+Theorem c14_cell_lipschitz : forall (m : @interp2 QN) i j px px' py py',
+  P2 m i j px py - P2 m i j px' py' ==
+  (fr (x2 m) i px - fr (x2 m) i px') *
+    ler (t2 (f2 m) (S i) j - t2 (f2 m) i j) (t2 (f2 m) (S i) (S j) - t2 (f2 m) i (S j)) (fr (y2 m) j py)
+  + (fr (y2 m) j py - fr (y2 m) j py') *
+    ler (t2 (f2 m) i (S j) - t2 (f2 m) i j) (t2 (f2 m) (S i) (S j) - t2 (f2 m) (S i) j) (fr (x2 m) i px').
+Proof. exact t2_lipschitz. Qed.
+
+(* multilinear_exact, 2-D: c0 + c1 x + c2 y + c3 x y sampled on the grid is reproduced exactly *)
+Theorem c14_interp2_multilinear_exact : forall m px py c0 c1 c2 c3, valid2 m -> inr (x2 m) px -> inr (y2 m) py ->
+  (forall a b, (a < List.length (x2 m))%nat -> (b < List.length (y2 m))%nat ->
+               t2 (f2 m) a b == mlin2 c0 c1 c2 c3 (nq (x2 m) a) (nq (y2 m) b)) ->
+  exists v, interpolate2 (N:=QN) m [px; py] = Ok v /\ v == mlin2 c0 c1 c2 c3 px py.
+Proof. exact t2_multilinear. Qed.
+
+(* outside_rejected *)
+Theorem c14_interp2_outside_rejected : forall m px py, valid2 m -> ~ (inr (x2 m) px /\ inr (y2 m) py) ->
+  interpolate2 (N:=QN) m [px; py] = Err "out-of-grid".
+Proof. exact interpolate2_outside. Qed.
+Theorem c14_interp2_wrong_length_rejected : forall (m : @interp2 QN) pt, List.length pt <> 2%nat ->
+  interpolate2 (N:=QN) m pt = Err "point-len".
+Proof. exact interpolate2_wrong_len. Qed.
+
+(* ================================================================== 4. Interp1D *)
+Theorem c14_interp1_new_valid : forall x f m, interp1_new (N:=QN) x f = Ok m -> (2 <= List.length x)%nat ->
+  valid1 m /\ x1 m = x /\ f1 m = f.
+Proof. exact new1_valid. Qed.
+Theorem c14_interp1_convex : forall m p, valid1 m -> inr (x1 m) p ->
+  exists i v, interpolate1 (N:=QN) m [p] = Ok v /\ axis_cell (x1 m) p i /\
+    Qmin (nq (f1 m) i) (nq (f1 m) (S i)) <= v /\ v <= Qmax (nq (f1 m) i) (nq (f1 m) (S i)).
+Proof. exact t1_convex. Qed.
+Theorem c14_interp1_on_grid : forall m p k, valid1 m -> (k < List.length (x1 m))%nat -> p == nq (x1 m) k ->
+  exists v, interpolate1 (N:=QN) m [p] = Ok v /\ v == nq (f1 m) k.
+Proof. exact t1_on_grid. Qed.
+Theorem c14_interp1_border_agreement : forall m p, valid1 m -> inr (x1 m) p ->
+  exists v, interpolate1 (N:=QN) m [p] = Ok v /\ forall i, axis_cell (x1 m) p i -> v == P1 m i p.
+Proof. exact t1_any_cell. Qed.
+Theorem c14_interp1_multilinear_exact : forall m p A B, valid1 m -> inr (x1 m) p ->
+  (forall k, (k < List.length (x1 m))%nat -> nq (f1 m) k == A + B * nq (x1 m) k) ->
+  exists v, interpolate1 (N:=QN) m [p] = Ok v /\ v == A + B * p.
+Proof. exact t1_affine. Qed.
+Theorem c14_interp1_outside_rejected : forall m p, valid1 m -> ~ inr (x1 m) p ->
+  interpolate1 (N:=QN) m [p] = Err "out-of-grid".
+Proof. exact interpolate1_outside. Qed.
+
+(* ================================================================== 5. Interp3D *)
+Theorem c14_interp3_new_valid : forall x y z f m, interp3_new (N:=QN) x y z f = Ok m ->
+  (2 <= List.length x)%nat -> (2 <= List.length y)%nat -> (2 <= List.length z)%nat ->
+  valid3 m /\ x3 m = x /\ y3 m = y /\ z3 m = z /\ f3 m = f.
+Proof. exact new3_valid. Qed.
+Theorem c14_interp3_convex : forall m px py pz lo hi, valid3 m -> inr (x3 m) px -> inr (y3 m) py -> inr (z3 m) pz ->
+  exists i j k v, interpolate3 (N:=QN) m [px; py; pz] = Ok v /\
+    axis_cell (x3 m) px i /\ axis_cell (y3 m) py j /\ axis_cell (z3 m) pz k /\
+    ((forall a b c, (a = i \/ a = S i) -> (b = j \/ b = S j) -> (c = k \/ c = S k) ->
+                    lo <= t3 (f3 m) a b c /\ t3 (f3 m) a b c <= hi) -> lo <= v /\ v <= hi).
+Proof. exact t3_convex. Qed.
+Theorem c14_interp3_on_grid : forall m px py pz a b c, valid3 m ->
+  (a < List.length (x3 m))%nat -> (b < List.length (y3 m))%nat -> (c < List.length (z3 m))%nat ->
+  px == nq (x3 m) a -> py == nq (y3 m) b -> pz == nq (z3 m) c ->
+  exists v, interpolate3 (N:=QN) m [px; py; pz] = Ok v /\ v == t3 (f3 m) a b c.
+Proof. exact t3_on_grid. Qed.
+Theorem c14_interp3_border_agreement : forall m px py pz, valid3 m -> inr (x3 m) px -> inr (y3 m) py -> inr (z3 m) pz ->
+  exists v, interpolate3 (N:=QN) m [px; py; pz] = Ok v /\
+    forall i j k, axis_cell (x3 m) px i -> axis_cell (y3 m) py j -> axis_cell (z3 m) pz k ->
+                  v == P3 m i j k px py pz.
+Proof. exact t3_any_cell. Qed.
+(* multilinear_exact, 3-D: all eight coefficients of a function affine in each of x, y, z *)
+Theorem c14_interp3_multilinear_exact : forall m px py pz c, valid3 m ->
+  inr (x3 m) px -> inr (y3 m) py -> inr (z3 m) pz ->
+  (forall a b d, (a < List.length (x3 m))%nat -> (b < List.length (y3 m))%nat -> (d < List.length (z3 m))%nat ->
+                 t3 (f3 m) a b d == mlin3 c (nq (x3 m) a) (nq (y3 m) b) (nq (z3 m) d)) ->
+  exists v, interpolate3 (N:=QN) m [px; py; pz] = Ok v /\ v == mlin3 c px py pz.
+Proof. exact t3_multilinear. Qed.
+Theorem c14_interp3_outside_rejected : forall m px py pz, valid3 m ->
+  ~ (inr (x3 m) px /\ inr (y3 m) py /\ inr (z3 m) pz) ->
+  interpolate3 (N:=QN) m [px; py; pz] = Err "out-of-grid".
+Proof. exact interpolate3_outside. Qed.
+
+(* ================================================================== 6. InterpND, every dimension n *)
+(* what InterpND::new accepts (with >= 2 points per axis) is well-formed data *)
+Theorem c14_nd_new_valid : forall n gs (v : @arr QN n) m, nd_new (N:=QN) n gs v = Ok m ->
+  Forall (fun g : list Q => (2 <= List.length g)%nat) gs -> m = mk n gs v /\ wf n gs v.
+Proof. exact nd_new_wf. Qed.
+
+(* convexity over the 2^n corners of a cell containing the point *)
+Theorem c14_nd_convex : forall n gs (v : @arr QN n) pt, wf n gs v -> inrs gs pt ->
+  exists cs out, interpolaten (N:=QN) (mk n gs v) pt = Ok out /\ cells gs pt cs /\
+    forall lo hi, (forall q, In q (corners n cs v) -> lo <= q /\ q <= hi) -> lo <= out /\ out <= hi.
+Proof. exact tn_convex. Qed.
+Theorem c14_nd_on_grid : forall n gs (v : @arr QN n) pt ix, wf n gs v -> on_grid gs pt ix -> inrs gs pt ->
+  exists out, interpolaten (N:=QN) (mk n gs v) pt = Ok out /\ out == entry n ix v.
+Proof. exact tn_on_grid. Qed.
+Theorem c14_nd_border_agreement : forall n gs (v : @arr QN n) pt, wf n gs v -> inrs gs pt ->
+  exists out, interpolaten (N:=QN) (mk n gs v) pt = Ok out /\ forall cs, cells gs pt cs -> out == ndP n gs cs pt v.
+Proof. exact tn_any_cell. Qed.
+(* multilinear_exact, N-D: every function that is affine in each variable separately (2^n coefficients, [mpoly n]) *)
+Theorem c14_nd_multilinear_exact : forall n gs (v : @arr QN n) pt (P : mpoly n), wf n gs v -> inrs gs pt ->
+  (forall ix, inrange gs ix -> entry n ix v == meval n P (coords gs ix)) ->
+  exists out, interpolaten (N:=QN) (mk n gs v) pt = Ok out /\ out == meval n P pt.
+Proof. exact tn_multilinear. Qed.
+Theorem c14_nd_outside_rejected : forall n gs (v : @arr QN n) pt, wf n gs v -> List.length pt = n -> ~ inrs gs pt ->
+  interpolaten (N:=QN) (mk n gs v) pt = Err "out-of-grid".
+Proof. exact interpolaten_outside. Qed.
+Theorem c14_nd_wrong_length_rejected : forall n gs (v : @arr QN n) (pt : list Q), wf n gs v -> List.length pt <> n ->
+  interpolaten (N:=QN) (mk n gs v) pt = Err "point-len".
+Proof. exact interpolaten_wrong_len. Qed.
+
+(* nd_agrees_with_1d_2d_3d: on the same data InterpND and the specialised interpolator return equal values *)
+Theorem c14_nd_agrees_1d : forall m p, valid1 m -> inr (x1 m) p ->
+  exists o1 on, interpolate1 (N:=QN) m [p] = Ok o1 /\
+                interpolaten (N:=QN) (mk 1 [x1 m] (f1 m)) [p] = Ok on /\ o1 == on.
+Proof. exact nd_agrees_1d. Qed.
+Theorem c14_nd_agrees_2d : forall m px py, valid2 m -> inr (x2 m) px -> inr (y2 m) py ->
+  exists o2 on, interpolate2 (N:=QN) m [px; py] = Ok o2 /\
+                interpolaten (N:=QN) (mk 2 [x2 m; y2 m] (f2 m)) [px; py] = Ok on /\ o2 == on.
+Proof. exact nd_agrees_2d. Qed.
+Theorem c14_nd_agrees_3d : forall m px py pz, valid3 m -> inr (x3 m) px -> inr (y3 m) py -> inr (z3 m) pz ->
+  exists o3 on, interpolate3 (N:=QN) m [px; py; pz] = Ok o3 /\
+                interpolaten (N:=QN) (mk 3 [x3 m; y3 m; z3 m] (f3 m)) [px; py; pz] = Ok on /\ o3 == on.
+Proof. exact nd_agrees_3d. Qed.
+
+(* ================================================================== 7. the checkers behind the S lines are sound *)
+(* Spec.convexnb tol ... out = true  (what the S lines evaluate on the implementation's output, tol = 1e-9) implies the
+   convexity statement widened by tol * (1 + 2 max(|lo|, |hi|)); with tol = 0 it is the statement itself *)
+Theorem c14_checker_convex_sound : forall tol n gs (v : @arr QN n) p out, 0 <= tol -> wf n gs v -> inrs gs p ->
+  Spec.convexnb tol n gs v p out = true ->
+  exists cs, cells gs p cs /\
+    forall lo hi, (forall q, In q (corners n cs v) -> lo <= q /\ q <= hi) ->
+      lo - tol * (1 + 2 * Qmax (Qabs lo) (Qabs hi)) <= out /\
+      out <= hi + tol * (1 + 2 * Qmax (Qabs lo) (Qabs hi)).
+Proof. exact convexnb_sound. Qed.
+(* on a grid point the checker demands the table value exactly, whatever the tolerance *)
+Theorem c14_checker_on_grid_sound : forall tol n gs (v : @arr QN n) p ix out, wf n gs v -> on_grid gs p ix ->
+  Spec.convexnb tol n gs v p out = true -> out == entry n ix v.
+Proof. exact convexnb_on_grid. Qed.
+Theorem c14_checker_interpolate_sound : forall tol n gs (v : @arr QN n) (p : list Q) (r : res Q), wf n gs v ->
+  Spec.check_interpolate tol n gs v p r = true ->
+  (List.length p <> n -> exists e, r = Err e) /\
+  (List.length p = n -> ~ inrs gs p -> exists e, r = Err e) /\
+  (inrs gs p -> exists out, r = Ok out /\ Spec.convexnb tol n gs v p out = true).
+Proof. exact check_interpolate_sound. Qed.
+Theorem c14_checker_sg_sound : forall tol (m : @interp2 QN) sv gv (r : res Q), valid2 m ->
+  Spec.check_sg tol (x2 m) (y2 m) (f2 m) sv gv r = true ->
+  let cs := Spec.qclamp (nq (x2 m) 0) (lastq (x2 m)) sv in
+  let cg := Spec.qclamp (nq (y2 m) 0) (lastq (y2 m)) gv in
+  inr (x2 m) cs /\ inr (y2 m) cg /\
+  exists out, r = Ok out /\ Spec.convexnb tol 2 [x2 m; y2 m] (f2 m) [cs; cg] out = true.
+Proof. exact check_sg_sound. Qed.
+(* the checker's clamp is the model's clamp *)
+Theorem c14_checker_clamp : forall lo hi v, lo <= hi -> Spec.qclamp lo hi v == clamp (N:=QN) lo hi v.
+Proof. exact qclamp_clamp. Qed.
+(* the harness's multi-affine test function c + prod (b_i + a_i x_i) is reproduced exactly by the cell polynomial,
+   and the checker bounds the implementation's distance from it *)
+Theorem c14_mlin_exact : forall c ab gs cs pt (v : @arr QN (List.length ab)),
+  List.length gs = List.length ab -> cells gs pt cs ->
+  (forall ix, inrange gs ix -> entry (List.length ab) ix v == Spec.mlinF c ab (coords gs ix)) ->
+  ndP (List.length ab) gs cs pt v == Spec.mlinF c ab pt.
+Proof. exact mlin_exact. Qed.
+Theorem c14_checker_mlin_sound : forall tol n gs (v : @arr QN n) c ab (p : list Q) (r : res Q),
+  0 <= tol -> wf n gs v -> inrs gs p -> Spec.check_mlin tol n gs v c ab p r = true ->
+  exists out cs, r = Ok out /\ cells gs p cs /\
+    forall lo hi, (forall q, In q (corners n cs v) -> lo <= q /\ q <= hi) ->
+      Qabs (out - Spec.mlinF c ab p) <= tol * (1 + 2 * Qmax (Qabs lo) (Qabs hi)).
+Proof. exact check_mlin_sound. Qed.
+
+(* ================================================================== pins *)
+Check c14_cell_index : forall (g : list Q) (x : Q),
+  incr g -> (2 <= List.length g)%nat -> nq g 0 <= x -> x <= lastq g ->
+  exists i, find_nearest_index (N:=QN) g x = Ok i /\ (S i < List.length g)%nat /\
+            nq g i <= x /\ x <= nq g (S i) /\
+            ((x == lastq g /\ i = (List.length g - 2)%nat) \/ nq g i < x \/ (i = 0%nat /\ x == nq g 0)).
+Check c14_sg_between_surrounding : forall (underlying : Q -> Q -> res Q) (conv_speed conv_grade : Q -> Q)
+    (s_lo s_hi : Q) (s_bins : nat) (g_lo g_hi : Q) (g_bins : nat) (m : @interp2 QN),
+  sg_new (N:=QN) underlying s_lo s_hi s_bins g_lo g_hi g_bins = Ok m -> (2 <= s_bins)%nat -> (2 <= g_bins)%nat ->
+  forall speed grade,
+    exists i j v u00 u10 u01 u11,
+      sg_predict (N:=QN) conv_speed conv_grade m speed grade = Ok v /\
+      axis_cell (x2 m) (qs conv_speed m speed) i /\ axis_cell (y2 m) (qg conv_grade m grade) j /\
+      underlying (nq (x2 m) i) (nq (y2 m) j) = Ok u00 /\
+      underlying (nq (x2 m) (S i)) (nq (y2 m) j) = Ok u10 /\
+      underlying (nq (x2 m) i) (nq (y2 m) (S j)) = Ok u01 /\
+      underlying (nq (x2 m) (S i)) (nq (y2 m) (S j)) = Ok u11 /\
+      min4 u00 u10 u01 u11 <= v /\ v <= max4 u00 u10 u01 u11.
+Check c14_sg_on_grid : forall (underlying : Q -> Q -> res Q) (conv_speed conv_grade : Q -> Q)
+    (s_lo s_hi : Q) (s_bins : nat) (g_lo g_hi : Q) (g_bins : nat) (m : @interp2 QN),
+  sg_new (N:=QN) underlying s_lo s_hi s_bins g_lo g_hi g_bins = Ok m -> (2 <= s_bins)%nat -> (2 <= g_bins)%nat ->
+  forall speed grade k l, (k < s_bins)%nat -> (l < g_bins)%nat ->
+    conv_speed speed == nq (x2 m) k -> conv_grade grade == nq (y2 m) l ->
+    exists v u, sg_predict (N:=QN) conv_speed conv_grade m speed grade = Ok v /\
+                underlying (nq (x2 m) k) (nq (y2 m) l) = Ok u /\ v == u.
+Check c14_nd_multilinear_exact : forall n gs (v : @arr QN n) pt (P : mpoly n), wf n gs v -> inrs gs pt ->
+  (forall ix, inrange gs ix -> entry n ix v == meval n P (coords gs ix)) ->
+  exists out, interpolaten (N:=QN) (mk n gs v) pt = Ok out /\ out == meval n P pt.
+Check c14_nd_agrees_2d : forall m px py, valid2 m -> inr (x2 m) px -> inr (y2 m) py ->
+  exists o2 on, interpolate2 (N:=QN) m [px; py] = Ok o2 /\
+                interpolaten (N:=QN) (mk 2 [x2 m; y2 m] (f2 m)) [px; py] = Ok on /\ o2 == on.
+
+(* ================================================================== non-vacuity *)
+(* a non-uniform 3 x 2 grid with a non-trivial table is accepted by the constructor; an interior point, a point on a
+   grid line and the upper boundary corner are interpolated; a point outside is rejected *)
+Example c14_ex_interp2 :
+  exists m, interp2_new (N:=QN) [0; 1; 3] [-1; 2] [[1; 2]; [3; 5]; [0; 4]] = Ok m /\ valid2 m /\
+            (exists v, interpolate2 (N:=QN) m [2; (1#2)] = Ok v /\ v == 3) /\
+            (exists v, interpolate2 (N:=QN) m [1; (1#2)] = Ok v /\ v == 4) /\
+            (exists v, interpolate2 (N:=QN) m [3; 2] = Ok v /\ v == 4) /\
+            interpolate2 (N:=QN) m [3; (5#2)] = Err "out-of-grid".
+Proof.
+  eexists. split; [reflexivity|]. split.
+  - apply (new2_valid [0; 1; 3] [-1; 2] [[1; 2]; [3; 5]; [0; 4]]); [reflexivity|cbn; auto|cbn; auto].
+  - repeat split; eexists; (split; [vm_compute; reflexivity|vm_compute; reflexivity]).
+Qed.
+(* the upper boundary special case and an interior target of the cell search *)
+Example c14_ex_cell_index :
+  find_nearest_index (N:=QN) [0; 1; 3; 7] 7 = Ok 2%nat /\ find_nearest_index (N:=QN) [0; 1; 3; 7] 3 = Ok 1%nat /\
+  find_nearest_index (N:=QN) [0; 1; 3; 7] (7#2) = Ok 2%nat /\ find_nearest_index (N:=QN) [0; 1; 3; 7] 0 = Ok 0%nat /\
+  incr [0; 1; 3; 7].
+Proof. repeat split; vm_compute; reflexivity. Qed.
+(* a speed/grade model over a non-linear predictor: built, queried inside, far outside (clamped, no error) *)
+Example c14_ex_sg :
+  let u := fun s g : Q => Ok (s * s + 10 * g) in
+  exists m, sg_new (N:=QN) u 0 60 4 (-1) 1 3 = Ok m /\
+            (exists v, sg_predict (N:=QN) (fun x => x) (fun x => x) m 30 (1#2) = Ok v /\ v == 1005) /\
+            (exists v, sg_predict (N:=QN) (fun x => x) (fun x => x) m 1000 (-50) = Ok v /\ v == 3590) /\
+            (exists v, sg_predict (N:=QN) (fun x => x) (fun x => x) m 40 0 = Ok v /\ v == 1600).
+Proof.
+  cbv zeta. eexists. split; [vm_compute; reflexivity|].
+  repeat split; eexists; (split; [vm_compute; reflexivity|vm_compute; reflexivity]).
+Qed.
+(* well-formed 3-dimensional data for the N-D theorems *)
+Example c14_ex_nd :
+  exists m, nd_new (N:=QN) 3 [[0; 1]; [0; 2]; [1; 2; 4]]
+              ([[[1; 2; 3]; [4; 5; 6]]; [[7; 8; 9]; [10; 11; 13]]] : @arr QN 3) = Ok m /\
+            wf 3 [[0; 1]; [0; 2]; [1; 2; 4]] ([[[1; 2; 3]; [4; 5; 6]]; [[7; 8; 9]; [10; 11; 13]]] : @arr QN 3) /\
+            (exists v, interpolaten (N:=QN) m [(1#2); 1; 3] = Ok v /\ v == 57#8).
+Proof.
+  set (G := [[0; 1]; [0; 2]; [1; 2; 4]]).
+  set (V := ([[[1; 2; 3]; [4; 5; 6]]; [[7; 8; 9]; [10; 11; 13]]] : @arr QN 3)).
+  assert (H : nd_new (N:=QN) 3 G V = Ok (mk 3 G V)) by (vm_compute; reflexivity).
+  exists (mk 3 G V). split; [exact H|]. split.
+  - apply (nd_new_wf 3 G V _ H). repeat constructor.
+  - eexists. split; [vm_compute; reflexivity|vm_compute; reflexivity].
+Qed.
+
+Print Assumptions c14_search_fuel.
+Print Assumptions c14_cell_index.
+Print Assumptions c14_sg_grid_is_underlying.
+Print Assumptions c14_sg_between_surrounding.
+Print Assumptions c14_sg_on_grid.
+Print Assumptions c14_sg_border_agreement.
+Print Assumptions c14_sg_clamp_outside.
+Print Assumptions c14_sg_new_total.
+Print Assumptions c14_interp2_new_valid.
+Print Assumptions c14_interp2_convex.
+Print Assumptions c14_interp2_on_grid.
+Print Assumptions c14_interp2_border_agreement.
+Print Assumptions c14_border_agreement_x.
+Print Assumptions c14_border_agreement_y.
+Print Assumptions c14_cell_lipschitz.
+Print Assumptions c14_interp2_multilinear_exact.
+Print Assumptions c14_interp2_outside_rejected.
+Print Assumptions c14_interp2_wrong_length_rejected.
+Print Assumptions c14_interp1_new_valid.
+Print Assumptions c14_interp1_convex.
+Print Assumptions c14_interp1_on_grid.
+Print Assumptions c14_interp1_border_agreement.
+Print Assumptions c14_interp1_multilinear_exact.
+Print Assumptions c14_interp1_outside_rejected.
+Print Assumptions c14_interp3_new_valid.
+Print Assumptions c14_interp3_convex.
+Print Assumptions c14_interp3_on_grid.
+Print Assumptions c14_interp3_border_agreement.
+Print Assumptions c14_interp3_multilinear_exact.
+Print Assumptions c14_interp3_outside_rejected.
+Print Assumptions c14_nd_new_valid.
+Print Assumptions c14_nd_convex.
+Print Assumptions c14_nd_on_grid.
+Print Assumptions c14_nd_border_agreement.
+Print Assumptions c14_nd_multilinear_exact.
+Print Assumptions c14_nd_outside_rejected.
+Print Assumptions c14_nd_wrong_length_rejected.
+Print Assumptions c14_nd_agrees_1d.
+Print Assumptions c14_nd_agrees_2d.
+Print Assumptions c14_nd_agrees_3d.
+Print Assumptions c14_checker_convex_sound.
+Print Assumptions c14_checker_on_grid_sound.
+Print Assumptions c14_checker_interpolate_sound.
+Print Assumptions c14_checker_sg_sound.
+Print Assumptions c14_checker_clamp.
+Print Assumptions c14_mlin_exact.
+Print Assumptions c14_checker_mlin_sound.
